@@ -169,15 +169,17 @@ func checkC06(p *load.Program, r *kit.Report) {
 		bad := ""
 		nTrue := 0
 		for _, ret := range kit.Returns(f) {
-			b, isC := kit.ConstBool(kit.RetOperand(ret, 0))
+			ds, isC := boolDecisions(ret, 0)
 			if !isC {
 				bad = "request decision is not a constant per path"
 				continue
 			}
-			if b {
-				nTrue++
-				if reach.Has(ret) {
-					bad = "`request it` is answered without stamping LastRequested: the same tx is requested from every announcer"
+			for _, d := range ds {
+				if d.Val {
+					nTrue++
+					if d.taken(reach) {
+						bad = "`request it` is answered without stamping LastRequested: the same tx is requested from every announcer"
+					}
 				}
 			}
 		}
@@ -189,8 +191,11 @@ func checkC06(p *load.Program, r *kit.Report) {
 		for _, e := range edgesOf(rg, false) {
 			rr := kit.Reach(f, []kit.Pt{kit.EdgeStart(e)}, kit.Opts{})
 			for _, ret := range kit.Returns(f) {
-				if b, ok := kit.ConstBool(kit.RetOperand(ret, 0)); ok && b && rr.Has(ret) {
-					bad = "a tx that was already received is requested again"
+				ds, _ := boolDecisions(ret, 0)
+				for _, d := range ds {
+					if d.Val && d.taken(rr) {
+						bad = "a tx that was already received is requested again"
+					}
 				}
 			}
 		}
@@ -344,7 +349,7 @@ func checkC06(p *load.Program, r *kit.Report) {
 				empty := emptyListEdges(f)
 				rr := kit.Reach(f, kit.After(a), kit.Opts{StopAt: kit.InstrSet(ss...), BlockEdge: func(e kit.Edge) bool { return intr(e) || empty[e] }})
 				for _, ret := range kit.Returns(f) {
-					if rr.Has(ret) && kit.ReturnErrClass(ret) != kit.ErrNonNil {
+					if rr.Has(ret) && rr.ErrClass(ret) != kit.ErrNonNil {
 						bad = "a txid accepted for request can be dropped: nil return at " + posOf(p, ret) + " without sending the getdata: " + rr.PathTo(ret, p.Pos)
 					}
 				}
